@@ -720,11 +720,11 @@ is stopped before `bucketCache.Add`; the metadata flush persists `x`, installs t
 the cache; the lookup continues and caches the bucket of the OLD snapshot (answer: not found). Then, with
 no concurrency left, `GenMetricID(ns, x)`: the lock-free lookup misses through the stale bucket; lindb's
 createValue reads `s.snapshot` under the lock and finds `x`; a createValue that trusts the cache creates
-a second id. Returns the node and the answer for `x`. -/
+a second id — unless `bucketCache.Add` is guarded (fix 4de81d7): then no stale bucket is ever cached. Returns the node and the answer for `x`. -/
 def bucketCacheRace (c : Cfg) (nd : Node) (nb nsName x : Nat) : Node × GenOut :=
   let nd1 := nd.metaFlush
-  match c.kv with
-  | .recheckLockedCached =>
+  match c.kv, c.kvCacheAddGuarded with
+  | .recheckLockedCached, false =>
     match nd1.ns.lookup nb nsName with
     | none => (nd1, .stuck)
     | some nsID =>
@@ -733,7 +733,7 @@ def bucketCacheRace (c : Cfg) (nd : Node) (nb nsName x : Nat) : Node × GenOut :
       | none =>
         let i := nd1.seqMem.metric
         (afterAlloc c { nd1 with metric := nd1.metric.insert nsID x i, seqMem := { nd1.seqMem with metric := i + 1 } }, .id i)
-  | _ => nd1.genMetric c nb nsName x
+  | _, _ => nd1.genMetric c nb nsName x
 
 /-- witness schedule reader ‖ writer ‖ flush on a schema that is persisted and not in memory:
 a reader's `GetSchema(m)` has read the kv family and is stopped before `cache.Add`; a writer creates
